@@ -85,7 +85,7 @@ fn write_replay(dir: &str, prop: &str, u: &Universe, nkeys: u16, big: bool, root
         "mode": vr.mode,
         "fault_props": fault_props,
         "prefix": root.prefix.iter().map(op_to_json).collect::<Vec<_>>(),
-        "universe": {"nkeys": nkeys, "big_limits": big, "rich": u.vary_key_heap},
+        "universe": {"nkeys": nkeys, "big_limits": big, "rich": u.vary_key_heap, "giant": u.vheaps.contains(&(usize::MAX / 2))},
         "config": config_to_json(&root.cfg),
         "history": vr.hist.iter().map(op_to_json).collect::<Vec<_>>(),
         "op": vr.op.as_ref().map(op_to_json),
@@ -327,10 +327,47 @@ pub fn cmd_explore(opt: &HashMap<String, String>) -> i32 {
         phases.push(Phase { name: "closure U4 (Spread, four value sizes, one size per key)".into(), result, roots: roots4, alpha_len, nkeys: 4, fault_props: 0, u: u4.clone() });
     }
 
+    // sizes near the top of the usize range
+    let ug = Universe::giant();
+    if !fault_only && !opt.contains_key("no-giant") && !verdict_reached(&phases) {
+        let rootsg = vec![
+            Root { cfg: Config { hk: HK::Spread, cap: None, limit: usize::MAX }, prefix: vec![], label: "giant sizes, Spread".into() },
+            Root { cfg: Config { hk: HK::Const, cap: Some(3), limit: usize::MAX }, prefix: vec![], label: "giant sizes, Const".into() },
+        ];
+        let ctxg = Ctx { u: &ug, sel, growth_bound: None, fault_props: 0, extra_ids: vec![], known_rules: known_rules.clone() };
+        // (a mutate that grows a value to usize::MAX/2 while another such entry is
+        // held made lru-mem's running total overflow transiently: repaired, see
+        // KNOWN_FINDINGS.txt; rule C11.transient-overflow still watches for it)
+        let alpha: Vec<Op> = alphabet(&ug);
+        let alpha_len = alpha.len();
+        let mut ex = Explorer::new(&ctxg, rootsg.clone(), alpha);
+        let so = StateOpts { exhaustive_pat_len, owning: false, clone, clone_product: 0, trap: false };
+        let eo = ExploreOpts {
+            threads,
+            max_depth,
+            max_states: 30_000_000,
+            wall_cap_s: wall_cap,
+            state_opts: Some(so),
+            transitions: true,
+            max_violations: 200,
+            extra: None,
+            phase: 3,
+            skips: skips.clone(),
+            depth_cap: depth_caps.get(&3).copied(),
+            heavy_depth_limit: None,
+        };
+        let result = ex.run(&eo);
+        phases.push(Phase { name: "closure: two keys, value sizes {0, 1, usize::MAX/2}, limits up to usize::MAX".into(), result, roots: rootsg, alpha_len, nkeys: 2, fault_props: 0, u: ug.clone() });
+    }
+
     // seeded, depth-bounded exploration from states the closure cannot reach
     let no_seeds = opt.contains_key("no-seeds");
     if !no_seeds && !verdict_reached(&phases) {
-        let seed_list = seeds(&u, thorough, fault_only, &skips);
+        let mut seed_list = seeds(&u, thorough, fault_only && !want(17), &skips);
+        if !fault_only {
+            let first = 10 + seed_list.len();
+            seed_list.extend(dense_seeds(&u, thorough, &skips, first));
+        }
         for (seed_idx, sd) in seed_list.into_iter().enumerate() {
             if verdict_reached(&phases) {
                 break;
@@ -383,7 +420,7 @@ pub fn cmd_explore(opt: &HashMap<String, String>) -> i32 {
                 trap,
             };
             let falpha = sd.alpha.clone();
-            let w16 = want(16);
+            let w16 = want(16) && sd.len <= 64;
             let w17 = want(17);
             let w13 = want(13);
             let extra: Option<std::sync::Arc<dyn Fn(&Ctx, &Config, &[Op], &mut Stats) -> ExtraOut + Send + Sync>> = if w16 || w17 || w13 {
@@ -408,7 +445,7 @@ pub fn cmd_explore(opt: &HashMap<String, String>) -> i32 {
             };
             let eo = ExploreOpts {
                 threads,
-                max_depth: if fault_only { 1 } else { sd.depth },
+                max_depth: if fault_only { if sd.len > 64 { 0 } else { 1 } } else { sd.depth },
                 max_states: 30_000_000,
                 wall_cap_s: wall_cap,
                 state_opts: if fault_only { None } else { Some(so) },
@@ -791,7 +828,7 @@ pub fn cmd_replay(opt: &HashMap<String, String>) -> i32 {
     let nkeys = j["universe"]["nkeys"].as_u64().unwrap_or(3) as u16;
     let big = j["universe"]["big_limits"].as_bool().unwrap_or(false);
     let rich = j["universe"]["rich"].as_bool().unwrap_or(true);
-    let u = Universe::with_richness(nkeys, big, rich);
+    let u = if j["universe"]["giant"].as_bool().unwrap_or(false) { Universe::giant() } else { Universe::with_richness(nkeys, big, rich) };
     let Some(cfg) = config_from_json(&j["config"]) else {
         eprintln!("bad config");
         return 2;
